@@ -1,16 +1,26 @@
-/* C16 (a) robustness: PREFIX (concrete) followed by 0..NSYM symbolic characters; p_ini_file_parse on
- * the real pinifile.c/pstring.c/plist.c/pmem.c returns TRUE, every CBMC memory check passes, the
- * object is consistent, and freeing it is memory-safe.
- *   -DPREFIX="..."   concrete head of the file
- *   -DNSYM=n         number of symbolic characters; -DNMIN=m minimum (default 0)
- *   -DFIRST=c        first symbolic character fixed (split for parallelism)
- *   -DFILLER=n       a line of n filler characters 'a' precedes the symbolic part (fgets split at MAXLINE) */
+/* C16 (a) robustness: file = PREFIX (concrete) + FILLER x 'a' + symbolic part + SUFFIX (concrete).
+ * The symbolic part is either one line body of exactly LEN characters without new-line (-DLEN=n; the
+ * line positions are then concrete and only this line's processing is symbolic), or 0..NSYM characters
+ * that may be new-lines (-DNSYM=n; symbolic line structure, short).  Checked: p_ini_file_parse on the
+ * real pinifile.c/pstring.c/plist.c/pmem.c returns TRUE, every CBMC memory-safety check passes
+ * (stack buffers are exact, string blocks are VM_STRBLK bytes), the object is consistent (every listed
+ * section has a key, every listed key exists and has a retrievable string), free is memory-safe.
+ *   -DFIRST=c   first symbolic character fixed to c (split for parallelism)
+ *   -DNOTFIRST="chars"  first symbolic character is none of these (the remainder class of the split) */
 #include "C16_common.h"
 #ifndef PREFIX
 #define PREFIX ""
 #endif
-#ifndef NMIN
-#define NMIN 0
+#ifndef SUFFIX
+#define SUFFIX ""
+#endif
+#ifndef FILLER
+#define FILLER 0
+#endif
+#ifdef LEN
+#define NCH LEN
+#else
+#define NCH NSYM
 #endif
 
 void harness(void) {
@@ -18,30 +28,46 @@ void harness(void) {
   int pos, n, i, ns, nk;
   vm_alloc_install();
   pos = c16_put(0, PREFIX);
-#ifdef FILLER
   for (i = 0; i < FILLER; i++) vm_file_data[pos++] = 'a';
+#ifdef LEN
+  n = LEN;
+#else
+  n = ND_RANGE(0, NSYM);
 #endif
-  n = ND_RANGE(NMIN, NSYM);
-  for (i = 0; i < NSYM; i++) {
+  for (i = 0; i < NCH; i++) {
     char c = c16_sym_char();
+#ifdef LEN
+    VASSUME(c != '\n');
+#endif
 #ifdef FIRST
     if (i == 0) VASSUME(c == FIRST);
 #endif
+#ifdef NOTFIRST
+    if (i == 0) VASSUME(vm_strchr(NOTFIRST, c) == NULL || c == 0);
+#endif
     vm_file_data[pos + i] = (unsigned char) c;
   }
-  vm_file_len = pos + n;
+  pos += n;
+#ifdef LEN
+  pos = c16_put(pos, SUFFIX);
+#endif
+  vm_file_len = pos;
 
   ini = p_ini_file_new("f");
   VASSERT(ini != NULL, "p_ini_file_new succeeds");
   VASSERT(p_ini_file_parse(ini, NULL) == TRUE, "parse of a readable file returns TRUE");
   ns = c16_consistent(ini, &nk);
-  if (ns >= 1 && nk >= 1) VWITNESS("a section with a key was listed");
+#ifdef WIT_KEYS
+  if (nk >= WIT_KEYS) VWITNESS("expected number of keys can be listed");
+#endif
+#ifdef WIT_SECS
+  if (ns >= WIT_SECS) VWITNESS("expected number of sections can be listed");
+#endif
+#ifdef WIT_NOSEC
   if (ns == 0) VWITNESS("no section listed");
-#ifdef WIT_TWO_SECTIONS
-  if (ns >= 2) VWITNESS("two sections listed");
 #endif
 #ifdef WIT_SPLIT
-  if (vm_fgets_calls >= 4) VWITNESS("fgets split a long line");
+  if (vm_fgets_calls >= WIT_SPLIT) VWITNESS("fgets split the long line");
 #endif
   p_ini_file_free(ini);
   VWITNESS("end of harness");
